@@ -270,16 +270,16 @@ fn val_strategy() -> impl Strategy<Value = ValChoice> {
 fn node_strategy(depth: u32) -> BoxedStrategy<NodeSpec> {
     let refval: BoxedStrategy<RefVal> = if depth == 0 {
         prop_oneof![
-            3 => Just(RefVal::Omit),
-            4 => prop::collection::vec(any::<u16>(), 1..=3).prop_map(RefVal::Link),
+            2 => Just(RefVal::Omit),
+            5 => prop::collection::vec(any::<u16>(), 1..=3).prop_map(RefVal::Link),
         ]
         .boxed()
     } else {
         prop_oneof![
-            3 => Just(RefVal::Omit),
+            2 => Just(RefVal::Omit),
             1 => Just(RefVal::Null),
             4 => prop::collection::vec(any::<u16>(), 1..=3).prop_map(RefVal::Link),
-            3 => prop::collection::vec(node_strategy(depth - 1), 1..=2).prop_map(RefVal::New),
+            4 => prop::collection::vec(node_strategy(depth - 1), 1..=2).prop_map(RefVal::New),
         ]
         .boxed()
     };
@@ -293,11 +293,20 @@ fn node_strategy(depth: u32) -> BoxedStrategy<NodeSpec> {
 
 fn op_strategy() -> impl Strategy<Value = DataOp> {
     prop_oneof![
-        5 => (any::<u16>(), node_strategy(2), 0u8..3, 0u8..3, 0u8..3).prop_map(
+        7 => (biased_index(), node_strategy(2), 0u8..3, 0u8..3, 0u8..3).prop_map(
             |(ent, node, tick, signer, room)| DataOp::Create { ent, node, tick, signer, room }
         ),
         1 => (any::<u16>(), node_strategy(1), 0u8..3)
             .prop_map(|(row, node, tick)| DataOp::Update { row, node, tick }),
+    ]
+}
+
+/// index biased towards the first entities, so that tables get several rows and queries hit them
+fn biased_index() -> impl Strategy<Value = u16> {
+    prop_oneof![
+        3 => 0u16..16000,
+        2 => 16000u16..33000,
+        2 => any::<u16>(),
     ]
 }
 
@@ -360,9 +369,26 @@ fn entq_strategy(depth: u32, root: bool) -> BoxedStrategy<EntQSpec> {
         prop::collection::vec(entq_strategy(depth - 1, false), 0..=2).boxed()
     };
     let agg_weight = if root { 0.2 } else { 0.1 };
+    let filters: BoxedStrategy<Vec<FilterSpec>> = if root {
+        prop_oneof![
+            8 => Just(vec![]),
+            7 => prop::collection::vec(filter_strategy(), 1..=1),
+            4 => prop::collection::vec(filter_strategy(), 2..=2),
+            1 => prop::collection::vec(filter_strategy(), 3..=3),
+        ]
+        .boxed()
+    } else {
+        prop_oneof![
+            12 => Just(vec![]),
+            4 => prop::collection::vec(filter_strategy(), 1..=1),
+            1 => prop::collection::vec(filter_strategy(), 2..=2),
+        ]
+        .boxed()
+    };
+    let ent: BoxedStrategy<u16> = if root { biased_index().boxed() } else { any::<u16>().boxed() };
     (
         (
-            any::<u16>(),
+            ent,
             prop::bool::weighted(0.3),
             prop::collection::vec(sel_strategy(), 1..=4),
             subs,
@@ -375,16 +401,16 @@ fn entq_strategy(depth: u32, root: bool) -> BoxedStrategy<EntQSpec> {
             ),
         ),
         (
-            prop::collection::vec(filter_strategy(), 0..=3),
+            filters,
             prop_oneof![
                 2 => Just(vec![]),
                 5 => prop::collection::vec(ord_strategy(), 1..=3),
             ],
             prop::bool::weighted(0.7),
             prop_oneof![3 => Just(0u8), 2 => 1u8..5],
-            prop_oneof![4 => Just(0u8), 1 => 1u8..4],
-            prop::option::weighted(0.25, paging_strategy()),
-            0u8..4,
+            prop_oneof![6 => Just(0u8), 1 => 1u8..3],
+            prop::option::weighted(0.15, paging_strategy()),
+            prop_oneof![1 => Just(0u8), 1 => Just(1u8), 1 => Just(2u8), 2 => Just(3u8)],
         ),
     )
         .prop_map(
@@ -409,13 +435,17 @@ fn entq_strategy(depth: u32, root: bool) -> BoxedStrategy<EntQSpec> {
 }
 
 pub fn query_strategy(depth: u32) -> impl Strategy<Value = QuerySpec> {
-    prop::collection::vec(entq_strategy(depth, true), 1..=2).prop_map(|roots| QuerySpec { roots })
+    prop_oneof![
+        3 => prop::collection::vec(entq_strategy(depth, true), 1..=1),
+        1 => prop::collection::vec(entq_strategy(depth, true), 2..=2),
+    ]
+    .prop_map(|roots| QuerySpec { roots })
 }
 
 pub fn case_strategy(max_ops: usize, wild_weight: f64) -> BoxedStrategy<Case> {
     (
         model_strategy(),
-        prop::collection::vec(op_strategy(), 2..=max_ops),
+        prop::collection::vec(op_strategy(), 3..=max_ops),
         any::<u16>(),
         query_strategy(2),
         prop::bool::weighted(wild_weight),
